@@ -296,6 +296,9 @@ func eval(c Case) (f *pbt.Fail) {
 		// bytes.Reader.ReadAt never returns EOF with a full read; nothing to normalise
 	}
 	rs = append(rs, res{"ReadAt", t, e})
+	// io.ReaderAt: "if the n = len(p) bytes returned are at the end of the input source, ReadAt may return either err == EOF or err == nil"
+	t, e = imagetype.ReadAt(eofAt{b})
+	rs = append(rs, res{"ReadAt(reader that returns the last bytes with io.EOF)", t, e})
 	for _, size := range []int{24, 64, 4096} {
 		br := bufio.NewReaderSize(oneByte{bytes.NewReader(b)}, size)
 		t, e = imagetype.ScanBuf(br)
@@ -436,6 +439,20 @@ func genCase(rt *rapid.T) Case {
 	rec.Case(nontrivial(b, imagetype.ImageUnknown), ev.Hash(b), cs.Origin)
 	rec.Sample(cs.Origin, cs)
 	return cs
+}
+
+// eofAt is an io.ReaderAt that reports io.EOF together with a read that reaches the end of the data.
+type eofAt struct{ b []byte }
+
+func (r eofAt) ReadAt(p []byte, off int64) (int, error) {
+	if off >= int64(len(r.b)) {
+		return 0, io.EOF
+	}
+	n := copy(p, r.b[off:])
+	if int(off)+n == len(r.b) {
+		return n, io.EOF
+	}
+	return n, nil
 }
 
 func TestProp(t *testing.T) {
